@@ -457,7 +457,14 @@ impl Property for C19 {
         };
         let gen = match sub {
             "random" => {
-                let qubits = if d.coin("q1", 1, 20) { 1 } else { 2 + d.choose("q", 7) };
+                let qubits = if d.coin("q1", 1, 20) {
+                    1
+                } else if d.coin("qwide", 1, 10) {
+                    // wider than a machine word
+                    60 + d.choose("qw", 80)
+                } else {
+                    2 + d.choose("q", 7)
+                };
                 let depth = d.choose("depth", 61);
                 let preset = match d.choose("preset", 6) {
                     0 => 1,
@@ -491,7 +498,8 @@ impl Property for C19 {
                 Gen::HiddenShift { qubits, clifford_depth: d.choose("hs.d", 41), n_ccz: d.choose("hs.c", 5) }
             }
             "pauli_gadget" => {
-                let qubits = 1 + d.choose("pg.q", 8);
+                // registers wider than a machine word in one run of eight
+                let qubits = if d.coin("pg.wide", 1, 8) { 60 + d.choose("pg.qw", 80) } else { 1 + d.choose("pg.q", 8) };
                 let maxw = 1 + d.choose("pg.max", qubits);
                 let minw = 1 + d.choose("pg.min", maxw);
                 Gen::PauliGadget { qubits, depth: d.choose("pg.d", 13), min_weight: minw, max_weight: maxw, phase_denom: 1 + d.choose("pg.den", 16) }
